@@ -43,7 +43,7 @@ def run(c, chk):
             if p.calls(name):
                 sites[name].append(p)
     chk.analysed = {'paths_through_strtol': len(sites['strtol']), 'paths_through_strtod': len(sites['strtod'])}
-    nsites = sum(1 for n in sites for _ in c.deep_calls(fn, n))
+    nsites = len(set(id(e.ins) for p in paths for e in p.events if e.kind == 'call' and e.name in sites))     # (also reached through a table of built-in converters)
     chk.floor('R4.x conversion call sites', nsites, 2)
     # a helper split off cfg_setopt() or off the path resolver belongs to that function (its calls are on the explored paths)
     from . import c11 as _c11
